@@ -76,8 +76,14 @@ HOSTS = ["Aggregate({X}, 0, lambda a, v: a + v)", "Aggregate(ds, {X}, lambda a, 
          "f({X})", "f(k={X})", "f(*{X})", "({X}).m()", "obj.Count({X})", "obj.len(k={X})", "z[{X}]", "({X})[0]", "{{'k': {X}}}",
          "[{X}, {X}]", "-{X}", "{X} if {X} > 1 else {X}", "{X} and c", "lambda e, n={X}: e + n", "[{X} for a in b if {X} > 1]",
          "f'{{{X}}}'", "(y := {X})", "{X}.attr", "({X})(1)", "First({X})", "Where(ds, lambda v: {X} > v)",
-         "SelectMany(ds, lambda v: Select(v.js, lambda w: {X}))"]
-HOST_XS = ["Count(ds)", "len(Select(ds, lambda v: v + 1))", "Sum(ds)", "Max(Where(ds, lambda v: v > Min(ds)))", "Count(Count(ds))"]
+         "SelectMany(ds, lambda v: Select(v.js, lambda w: {X}))",
+         # lambda parameters spelled like the shortcut names, visited before / after / around a real shortcut call
+         "[Select(ds, lambda Sum: Sum + 1), {X}]", "[{X}, Select(ds, lambda Sum: Sum + 1)]",
+         "f(lambda Count, len: Count, {X}, lambda Max, Min: Max)", "(lambda len: len)({X})",
+         "Select(ds, lambda Sum: Sum + {X})", "Select(Select(ds, lambda Count: Count), lambda v: {X})"]
+HOST_XS = ["Count(ds)", "len(Select(ds, lambda v: v + 1))", "Sum(ds)", "Max(Where(ds, lambda v: v > Min(ds)))", "Count(Count(ds))",
+           # written-out sequences (also with starred entries) are sequences like any other
+           "len([1, 2])", "Count((ds, ds))", "len([*ds, 0])", "Sum([])", "Max((1,))", "len([v for v in ds])"]
 
 
 def host_cases():
@@ -206,6 +212,7 @@ class C19(Check):
         # one transformer object used for several queries (first one without any shortcut) must behave the same
         t = aggregate_node_transformer()
         t.visit(ast.parse("a + b.c(d)", mode="eval").body)
+        t.visit(ast.parse("Select(ds, lambda Sum, Count, len, Max, Min: Sum + Count)", mode="eval").body)
         r2 = t.visit(copy.deepcopy(q))
         r3 = t.visit(copy.deepcopy(q))
         if ast.dump(r2) != ast.dump(r) or ast.dump(r3) != ast.dump(r):
